@@ -687,7 +687,8 @@ pub enum RecipeTime {
 
 /// Returns minutes
 fn parse_time(s: &str, converter: &Converter) -> Result<u32, ParseTimeError> {
-    if s.is_empty() {
+    // blank is empty too, without this it would be the sum of no parts: 0
+    if s.trim().is_empty() {
         return Err(ParseTimeError::Empty);
     }
 
